@@ -2,5 +2,5 @@ SPECIFICATION Spec
 CONSTANTS
   Mode = "body"
   Quick = TRUE
-INVARIANTS Old_OK
+INVARIANTS Old_OK OldBlock_OK
 CHECK_DEADLOCK FALSE
